@@ -10,6 +10,10 @@ def part(pkg, test, checks, shards, steps=30, **kw):
     return d
 
 
+def fuzzpart(pkg, target, fuzztime):
+    return {"pkg": pkg, "test": target, "fuzz": target, "fuzztime": fuzztime, "tiers": (T,)}
+
+
 PLAN = {
     "C01": [
         part("api", "TestC01API", (400, 4000), (8, 16)),
@@ -55,7 +59,10 @@ PLAN = {
     "C19": [
         part("api", "TestC19Mutations", (1, 1), (1, 1)),
         part("api", "TestC19Random", (6000, 100000), (4, 16)),
-    ],
+        part("cli", "TestC19CLI", (1, 1), (8, 16)),
+    ] + [fuzzpart("api", t, "25s") for t in (
+        "FuzzC19ObjectContent", "FuzzC19Object", "FuzzC19Tree", "FuzzC19Commit", "FuzzC19Index", "FuzzC19Head",
+        "FuzzC19Branch", "FuzzC19Config", "FuzzC19Reflog", "FuzzC19Hash", "FuzzC19NullStr")],
     "C20": [part("cli", "TestC20", (60, 2500), (16, 16), steps=15)],
 }
 
